@@ -144,13 +144,20 @@ def dedup(names):
 E2E_ALPHABET = ['a', 'A', 'b', 'B', '1', '_', '-', '[', ']', '/', '\\', ' ', '$', '&', '.', ':', '%', '(', ')', ';', '<', '*']
 
 
-def e2e_name(rng, pool):
+BENIGN_ALPHABET = ['a', 'b', 'c', '1', '0', '_', '-', '[', ']', '/', '\\', ' ', '$', '&', '.', ':', '%', '(', ')', ';', '<', '*', '+', '~', "'"]
+
+
+def e2e_name(rng, pool, benign=False):
+    """benign = inside the part of the name space where C17 is expected to HOLD on the current code:
+    no upper-case letters, no double quote, short enough that nothing is cut; still adversarial
+    (sanitised twins, pre-existing x_sdn_N_ forms, leading digits / symbols)"""
+    alpha = BENIGN_ALPHABET if benign else E2E_ALPHABET
     r = rng.random()
     if pool and r < 0.45:
         b = rng.choice(pool)
         t = rng.random()
         if t < 0.3:
-            return b.swapcase()
+            return b if benign else b.swapcase()
         if t < 0.45:
             return b.lower()
         if t < 0.6:
@@ -159,35 +166,38 @@ def e2e_name(rng, pool):
             return b + rng.choice(['_sdn_1_', '_sdn_2_', '-', '_'])
         if t < 0.85:
             return b.lower() + '_sdn_1_'
-        return b[:-1] + rng.choice(E2E_ALPHABET) if len(b) > 1 else b + 'x'
+        return b[:-1] + rng.choice(alpha) if len(b) > 1 else b + 'x'
     if r < 0.55:
-        n = rng.choice([250, 254, 255, 256, 257, 300])
-        head = rng.choice(['a', 'A', '1', '_'])
-        return head + ''.join(rng.choice(['a', 'b', 'A', '_', '-']) for _ in range(n - 1))
-    if r < 0.57:
+        n = rng.choice([100, 200, 230, 236]) if benign else rng.choice([250, 254, 255, 256, 257, 300])
+        head = rng.choice(['a', '1', '_'] if benign else ['a', 'A', '1', '_'])
+        return head + ''.join(rng.choice(['a', 'b', '_', '-'] if benign else ['a', 'b', 'A', '_', '-']) for _ in range(n - 1))
+    if r < 0.57 and not benign:
         return ''.join(rng.choice(E2E_ALPHABET + ['"']) for _ in range(rng.randint(1, 6)))
-    return ''.join(rng.choice(E2E_ALPHABET) for _ in range(rng.randint(1, 6)))
+    return ''.join(rng.choice(alpha) for _ in range(rng.randint(1, 6)))
 
 
-def e2e_scope(rng, k):
+def e2e_scope(rng, k, benign=False):
     pool = []
     for _ in range(k):
-        pool.append(e2e_name(rng, pool))
+        pool.append(e2e_name(rng, pool, benign))
     return dedup(pool)
 
 
-def e2e_spec(rng):
+def e2e_spec(rng, benign=None):
     """a small netlist whose every scope carries adversarial names (unique per scope, as the default
-    naming policy requires)"""
+    naming policy requires). 60 % of the netlists are `benign` (see e2e_name): there the whole
+    round trip must succeed; the rest reaches the known defects."""
+    if benign is None:
+        benign = rng.random() < 0.6
     libs = []
-    lib_names = e2e_scope(rng, rng.randint(2, 3))
+    lib_names = e2e_scope(rng, rng.randint(2, 3), benign)
     if len(lib_names) < 2:
         lib_names.append(lib_names[0] + 'x')
     for li, ln in enumerate(lib_names):
         defs = []
-        for dn in e2e_scope(rng, rng.randint(1, 3)):
-            cables = [(c, 1 if rng.random() < 0.93 else rng.randint(2, 3)) for c in e2e_scope(rng, rng.randint(0, 4))]
-            defs.append({'name': dn, 'ports': e2e_scope(rng, rng.randint(0, 3)), 'cables': cables,
-                         'insts': e2e_scope(rng, rng.randint(0, 4))})
+        for dn in e2e_scope(rng, rng.randint(1, 3), benign):
+            cables = [[c, 1 if (rng.random() < 0.9 or len(c) > 200) else rng.randint(2, 3)] for c in e2e_scope(rng, rng.randint(0, 4), benign)]
+            defs.append({'name': dn, 'ports': e2e_scope(rng, rng.randint(0, 3), benign), 'cables': cables,
+                         'insts': e2e_scope(rng, rng.randint(0, 4), benign)})
         libs.append({'name': ln, 'defs': defs})
-    return {'netlist': e2e_name(rng, []), 'top': e2e_name(rng, []), 'libs': libs}
+    return {'netlist': e2e_name(rng, [], benign), 'top': e2e_name(rng, [], benign), 'libs': libs, 'benign': benign}
